@@ -324,8 +324,10 @@ class DeltaEnergyController(IterationController):
 
         inclvl = False
         Eval = energy.value
-        rel = abs(self._Eold-Eval)/max(abs(self._Eold), abs(Eval))
         if self._itcount > 0:
+            denom = max(abs(self._Eold), abs(Eval))
+            # no change between two vanishing energies: relative change 0
+            rel = abs(self._Eold-Eval)/denom if denom > 0 else 0.
             if rel < self._tol_rel_deltaE:
                 inclvl = True
         self._Eold = Eval
